@@ -19,7 +19,7 @@ From Lib Require Bytes.
 From Model Require C17_GetResults.
 From Model Require Import C06_PCache C07_PCacheConc Compose_C07_C17.
 From Proofs Require Import C06_PCache C07_PCacheConc Compose_C07_C17.
-From Gen Require Import Gen_Sync_pcache Gen_Writes_pcache.
+From Gen Require Import Gen_Sync_pcache Gen_Writes_pcache Gen_Fields_pcache.
 
 Notation reachable nm ttl auto := (LTS.reachable (stepf nm ttl) (ginit auto)).
 
@@ -137,6 +137,19 @@ Theorem all_writes_private :
           pcache_writes = true.
 Proof. vm_compute. reflexivity. Qed.
 Print Assumptions all_writes_private.
+
+(* Records.  In the transition system a provider record is a VALUE inside the map objects
+   (published_maps_immutable therefore fixes the records a snapshot holds for ever); in Go
+   the maps hold pointers to *model.ProviderInfo objects that the write map, the published
+   maps and every caller share.  That no code writes into such an object is this theorem,
+   over the regenerated list of field assignments of provider_cache.go (finite domain): the
+   only assignments through a pointer not allocated in the same function set one field of
+   the writer-private cacheInfo entry or of the cache struct — never a field of a
+   *ProviderInfo (cinfo.provider.X has depth 2), never anything read out of the read maps. *)
+Theorem published_records_never_assigned :
+  forallb (fun w => Skel.field_write_ok (f_root w) (f_depth w) (f_root_fresh w)) pcache_field_writes = true.
+Proof. vm_compute. reflexivity. Qed.
+Print Assumptions published_records_never_assigned.
 
 (* Get, GetResults, List, Len, getReadOnly, loadReadOnly contain no lock, channel, select,
    wait-group or once operation on the hit path: only atomic accesses, control flow, calls
